@@ -199,10 +199,12 @@ BASES = {
 
 def increment(base, tagset, where):
     """where: 'same' (merchant M1, category Cat/Sub, month 3) | 'newmerchant' (M9, same category, month 3) |
-    'newall' (M9, Cat9, month 7) | 'newmonth' (M1, month 8 - needs sqrt_free)"""
+    'newall' (M9, Cat9, month 7) | 'newmonth' (M1, month 8 - needs sqrt_free) | 'newcat' / 'newsub' (merchant M1 again, under another
+    category / subcategory: one merchant name reached through two rules)"""
     tags = TAGSETS[tagset]
     merchant, cat, sub, month = {'same': ('M1', 'Cat', 'Sub', 3), 'newmerchant': ('M9', 'Cat', 'Sub', 3),
-                                 'newall': ('M9', 'Cat9', 'Sub9', 7), 'newmonth': ('M1', 'Cat', 'Sub', 8), 'otheryear': ('M1', 'Cat', 'Sub', 12)}[where]
+                                 'newall': ('M9', 'Cat9', 'Sub9', 7), 'newmonth': ('M1', 'Cat', 'Sub', 8), 'otheryear': ('M1', 'Cat', 'Sub', 12),
+                                 'newcat': ('M1', 'Cat9', 'Sub9', 3), 'newsub': ('M1', 'Cat', 'Sub9', 4)}[where]
     year = 2024        # 'otheryear': December 2024 next to the base list's December 2025
     base_txns = BASES[base]
 
@@ -262,7 +264,7 @@ def _digest(s):
             sorted(s['by_month'].items()))
 
 
-def permutation(base, tagset1, tagset2):
+def permutation(base, tagset1, tagset2, ycat='Cat'):
     """Two symbolic transactions on the same merchant and month: any order, and any split of the list into two
     'sources' concatenated either way, gives the same figures."""
     t1, t2 = TAGSETS[tagset1], TAGSETS[tagset2]
@@ -276,7 +278,7 @@ def permutation(base, tagset1, tagset2):
         from tally.analyzer import analyze_transactions
         lst = [_txn(*b) for b in base_txns]
         x = _txn('M1', 'Cat', 'Sub', 3, a1, t1, desc='X')
-        y = _txn('M1', 'Cat', 'Sub', 3, a2, t2, desc='Y')
+        y = _txn('M1', ycat, 'Sub', 3, a2, t2, desc='Y')
         orders = [lst + [x, y], lst + [y, x], [x] + lst + [y], [y, x] + lst, [y] + lst + [x]]
         ref = _digest(analyze_transactions([dict(t) for t in orders[0]]))
         ok = True
@@ -298,14 +300,19 @@ def obligations(tier, seed):
               ('three', 5, 'same'), ('empty', 4, 'newall'), ('three', 6, 'newall'), ('one', 2, 'newmonth'), ('three', 0, 'newmonth'),
               ('one', 0, 'same'), ('one', 3, 'newmerchant'), ('two-merchants', 1, 'same'), ('two-merchants', 6, 'newmonth'),
               ('same-merchant-tagged', 2, 'same'), ('same-merchant-tagged', 5, 'newall'), ('three', 1, 'newmerchant'), ('three', 2, 'same'),
-              ('three', 4, 'newmonth'), ('empty', 0, 'same'), ('empty', 1, 'newall'), ('two-years', 0, 'otheryear'), ('two-years', 4, 'otheryear'), ('two-years', 1, 'newmonth')]
+              ('three', 4, 'newmonth'), ('empty', 0, 'same'), ('empty', 1, 'newall'), ('two-years', 0, 'otheryear'), ('two-years', 4, 'otheryear'), ('two-years', 1, 'newmonth'),
+              ('one', 0, 'newcat'), ('three', 4, 'newcat'), ('same-merchant-tagged', 0, 'newsub'), ('three', 1, 'newsub')]
     if not q:
-        combos = [(b, t, w) for b in BASES for t in range(len(TAGSETS)) for w in ['same', 'newmerchant', 'newall', 'newmonth', 'otheryear']]
+        combos = [(b, t, w) for b in BASES for t in range(len(TAGSETS)) for w in ['same', 'newmerchant', 'newall', 'newmonth', 'otheryear', 'newcat', 'newsub']]
     for (b, t, w) in combos:
         obs.append(Obligation(id=f'inc-{b}-t{t}-{w}', factory='increment', params={'base': b, 'tagset': t, 'where': w},
                               reals=True, opaque=True, sqrt_free=True, timeout=120 if q else 600, group='accumulation, inductive step',
                               bounds=f'base list {b} ({len(BASES[b])} concrete transactions) + one transaction with symbolic real amount, tags {TAGSETS[t]}, placement {w}, inserted at a symbolic position'))
     perms = [('one', 0, 1), ('two-merchants', 2, 4), ('empty', 3, 5), ('one', 2, 2), ('empty', 0, 6), ('two-merchants', 1, 3), ('two-years', 0, 4)] if q else [(b, i, j) for b in ['empty', 'one', 'two-merchants', 'two-years'] for i in range(len(TAGSETS)) for j in range(i, len(TAGSETS))]
+    for (b, i, j) in [('one', 0, 4), ('two-merchants', 4, 0)]:
+        obs.append(Obligation(id=f'perm2cat-{b}-t{i}-t{j}', factory='permutation', params={'base': b, 'tagset1': i, 'tagset2': j, 'ycat': 'Cat9'},
+                              reals=True, opaque=True, sqrt_free=True, timeout=120 if q else 600, group='order and partition independence',
+                              bounds=f'base list {b} + two transactions of ONE merchant under two categories, symbolic real amounts (tags {TAGSETS[i]} / {TAGSETS[j]}), 5 orders/splits'))
     for (b, i, j) in perms:
         obs.append(Obligation(id=f'perm-{b}-t{i}-t{j}', factory='permutation', params={'base': b, 'tagset1': i, 'tagset2': j},
                               reals=True, opaque=True, sqrt_free=True, timeout=120 if q else 600, group='order and partition independence',
